@@ -434,6 +434,10 @@ def gen_cases(tier, seed):
         c = [rng.choice([1, -1]) * rng.randrange(1, 4) for _ in range(rng.randrange(1, 6))]
         x = rng.choice(c) if rng.random() < 0.8 else rng.randrange(1, 5)
         cases.append((f'S [{",".join(map(str, c))}] {x}', 'simplify'))
+        if _ % 2 == 0:
+            l = [rng.choice([1, -1]) * rng.randrange(1, 5) for _k in range(rng.randrange(1, 6))]
+            r = [rng.choice([1, -1]) * rng.randrange(1, 5) for _k in range(rng.randrange(1, 4))]
+            cases.append((f'MC [{",".join(map(str, l))}] [{",".join(map(str, r))}]', 'merge'))
     return cases
 
 
@@ -624,6 +628,35 @@ def run(tier, seed):
         elif a != 'OK':
             R.violation(f'proof-layer/stage-{q[3]}', f'stage proof has the wrong conclusion or fails: {a} (input {q})',
                         {'input': q, 'got': a})
+    # run-time check of the helper specs assumed by the glue theorem (Taut/Glue.v: H_simplify / H_merge / H_trivial)
+    rngp = C.rng_for(seed, CID + ':pieces')
+    qp = ['QP S [1,2] 1', 'QP S [2,1,1] 1', 'QP S [1,2] 3', 'QP M [1] [2]', 'QP M [1,-2] [3,4]', 'QP T [1,-1]', 'QP T [2,1,-2]']
+    nS, nM, nT = (4, 8, 6) if tier == 'quick' else (40, 80, 50)
+    def rcl(lo, hi, nv=3):
+        return [rngp.choice([1, -1]) * rngp.randrange(1, nv + 1) for _ in range(rngp.randrange(lo, hi + 1))]
+    def scl(c):
+        return '[' + ','.join(map(str, c)) + ']'
+    for _ in range(nS):
+        c = rcl(1, 3 if tier == 'quick' else 4)
+        qp.append(f'QP S {scl(c)} {rngp.choice(c) if rngp.random() < 0.8 else 4}')
+    for _ in range(nM):
+        qp.append(f'QP M {scl(rcl(1, 4, 4))} {scl(rcl(1, 3, 4))}')
+    for _ in range(nT):
+        c = rcl(0, 2 if tier == 'quick' else 3)
+        x = rngp.randrange(1, 4)
+        c = c + [x, -x] if rngp.random() < 0.5 else [-x] + c + [x]
+        rngp.shuffle(c)
+        qp.append(f'QP T {scl(c)}')
+    qpa = run_impl(qp, timeout_case=60 if tier == 'quick' else 120)
+    for q, a in zip(qp, qpa):
+        if a is None or a.startswith('TIMEOUT') or a.startswith('<missing>'):
+            R.hist['proof_timeouts'] = R.hist.get('proof_timeouts', 0) + 1
+            continue
+        R.case(q, True, 'pieces' + q[3])
+        if a != 'OK':
+            name = {'S': 'H_simplify', 'M': 'H_merge', 'T': 'H_trivial'}[q[3]]
+            R.violation(f'proof-layer/helper-spec/{name}', f'helper spec {name} of Taut/Glue.v fails at run time: {a} (input {q})',
+                        {'input': q, 'got': a})
     R.hist['oracle_cases'] = n_oracle
 
     # bigger oracle budget when something broke
@@ -669,7 +702,7 @@ def replay(path):
         return 0
     ok, log, mlref = build_model()
     print('implementation :', run_impl([line], timeout_case=120)[0])
-    if ok and line[0] in 'PNCLRVS':
+    if ok and line.split()[0] in ('P', 'N', 'C', 'L', 'R', 'V', 'S', 'MC'):
         print('model (sound)  :', C.run_lines(mlref, [line])[0])
         print('model (pinned) :', C.run_lines(mlref, [line], args=('--pinned',))[0])
     if line[0] in 'PQO':
